@@ -70,10 +70,14 @@ def repo_hash():
             h.update(f.encode())
             with open(p, 'rb') as fh:
                 h.update(fh.read())
-    for root in (os.path.join(VERIF, 'harness'),):
+    # the machinery itself: a sweep cached by an older generator, driver or model must not be reused
+    for root in (os.path.join(VERIF, 'harness'), os.path.join(VERIF, 'bin'), os.path.join(VERIF, 'lean', 'PegVerif', 'Model'),
+                 os.path.join(VERIF, 'lean', 'PegVerif', 'Exec')):
         for dp, dn, fn in sorted(os.walk(root)):
             for f in sorted(fn):
                 p = os.path.join(dp, f)
+                if '__pycache__' in p or f.endswith('.pyc') or '/harness/bin/' in p:
+                    continue
                 h.update(p.encode())
                 with open(p, 'rb') as fh:
                     h.update(fh.read())
@@ -87,6 +91,14 @@ class Tools:
         self.hash = repo_hash()
         self.dir = os.path.join(CACHE, self.hash)
         os.makedirs(self.dir, exist_ok=True)
+        try:    # keep the cache small: only the few most recently used trees
+            os.utime(self.dir)
+            old = sorted((d for d in os.listdir(CACHE) if os.path.isdir(os.path.join(CACHE, d)) and d != self.hash),
+                         key=lambda d: os.path.getmtime(os.path.join(CACHE, d)), reverse=True)[3:]
+            for d in old:
+                shutil.rmtree(os.path.join(CACHE, d), ignore_errors=True)
+        except OSError:
+            pass
         self.peg = os.path.join(self.dir, 'peg')
         self.pegx = os.path.join(self.dir, 'pegx')
         self.pegmodel = os.path.join(LEAN, '.lake', 'build', 'bin', 'pegmodel')
